@@ -1247,8 +1247,9 @@ class MemoryCache:
         try:
             self.refs[cache_key] = result
         except TypeError:
-            # primitives like ints, strs, and dicts can't be weakrefed
-            pass
+            # primitives like ints, strs, and dicts can't be weakrefed; do not keep serving
+            # the value this one replaces
+            self.refs.pop(cache_key, None)
 
     @_synchronized
     def put(self, memento: Memento, result: object, has_result: bool):
